@@ -569,6 +569,7 @@ func init() {
 		}
 		checkBudget(r, prog, a, "c11")
 		checkParseWrappersForward(r, prog, "c11")
+		checkWrapperResults(r, prog, "c11")
 		r.importing = "C10"
 		checkCreateEvaluator(r, prog, a, nil, "c10") // every creation parses, once: acceptance is a function of (bytes, budget) only
 		checkRecoverDiscipline(r, prog, "c10")
@@ -692,4 +693,72 @@ func checkParseWrappersForward(r *Run, prog *Program, pfx string) {
 		}
 	}
 	r.Check(pfx+".transport", "wrapper:census", "grammar/grammar.go", n >= 1, fmt.Sprintf("info: %d forwarding entry points examined", n))
+}
+
+// checkWrapperResults: an entry point that hands the work on (ParseFile → ParseReader → Parse) returns what it got: the
+// only thing a deferred clean-up may put in place of the error is an error of its own that it has tested to be non-nil
+// (`if closeErr != nil { err = closeErr }`). A store under the opposite test erases the parse error — the budget error
+// among them — with nil.
+func checkWrapperResults(r *Run, prog *Program, pfx string) {
+	n := 0
+	var names []string
+	for name := range prog.GrammarSSA.Members {
+		names = append(names, name)
+	}
+	sort.Strings(names)
+	for _, name := range names {
+		fn, ok := prog.GrammarSSA.Members[name].(*ssa.Function)
+		if !ok || fn.Object() == nil || !fn.Object().Exported() || len(fn.Blocks) == 0 {
+			continue
+		}
+		rs := fn.Signature.Results()
+		if rs.Len() != 2 || !isErrorType(rs.At(1).Type()) {
+			continue
+		}
+		for _, af := range fn.AnonFuncs {
+			for _, b := range af.Blocks {
+				for _, ins := range b.Instrs {
+					st, isSt := ins.(*ssa.Store)
+					if !isSt || !isErrorType(deref(st.Addr.Type())) {
+						continue
+					}
+					if _, isFV := st.Addr.(*ssa.FreeVar); !isFV {
+						continue
+					}
+					n++
+					// the stored value is tested != nil on the way to the store
+					okStore := false
+					for d := b; d != nil; d = d.Idom() {
+						idom := d.Idom()
+						if idom == nil {
+							break
+						}
+						ifi, isIf := idom.Instrs[len(idom.Instrs)-1].(*ssa.If)
+						if !isIf {
+							continue
+						}
+						bo, isBO := ifi.Cond.(*ssa.BinOp)
+						if !isBO {
+							continue
+						}
+						var other ssa.Value
+						if bo.X == st.Val {
+							other = bo.Y
+						} else if bo.Y == st.Val {
+							other = bo.X
+						}
+						c, isC := other.(*ssa.Const)
+						if other == nil || !isC || c.Value != nil {
+							continue
+						}
+						if (bo.Op == token.NEQ && idom.Succs[0] == d) || (bo.Op == token.EQL && idom.Succs[1] == d) {
+							okStore = true
+						}
+					}
+					r.Check(pfx+".transport", fmt.Sprintf("wrapper-result:%s#%d", fn.Name(), n), prog.pos(st.Pos()), okStore,
+						"a deferred function of "+fn.Name()+" replaces the error it returns with a value it has not tested to be non-nil: a successful clean-up would erase the parse error (the budget error among them)")
+				}
+			}
+		}
+	}
 }
